@@ -51,8 +51,28 @@ package primitives
 //@   props C01
 //@ func Cylinder.ToMesh frameonly
 //@   props C01
-//@ func Hemisphere.UV frameonly
-//@   props C01
+// Hemisphere.UV: the same grid as UVSphere (2 + (rows-1)*columns vertices, 6*columns*(rows-1) indices, every index a vertex).
+//@ func Hemisphere.UV
+//@   props C01 C02
+//@   returns r
+//@   ensures [C02] well_formed_lengths: modeling.sameLen(r)
+//@   ensures [C02] well_formed_indices: modeling.idxOK(r)
+//@   ensures [C02] well_formed_topology: modeling.topoOK(r)
+//@   ensures [C02] attributes: has(r.v3Data, "Position") && has(r.v3Data, "Normal") && len(r.v3Data["Normal"]) == len(r.v3Data["Position"]) && r.topology == modeling.TriangleTopology
+//@   ensures [C02] counts: len(r.indices) == 6 * columns * (rows - 1) && len(r.v3Data["Position"]) == 2 + (rows - 1) * columns
+//@   loop 1:
+//@     invariant [C02] rings: 0 <= i && i <= rows - 1 && len(positions) == 1 + i * columns && fresh(positions)
+//@   loop 2:
+//@     invariant [C02] ring: 0 <= j && j <= columns && i < rows - 1 && len(positions) == 1 + i * columns + j && fresh(positions)
+//@   loop 3:
+//@     invariant [C02] caps: 0 <= i && i <= columns && len(tris) == 6 * i && v1i == 1 + (rows - 1) * columns && len(positions) == v1i + 1 && fresh(tris)
+//@     invariant [C02] cap_indices: forall k int :: 0 <= k && k < len(tris) ==> 0 <= tris[k] && tris[k] <= v1i
+//@   loop 4:
+//@     invariant [C02] bands: 0 <= j && (j <= rows - 2 || j == 0) && len(tris) == 6 * columns + 6 * j * columns && v1i == 1 + (rows - 1) * columns && len(positions) == v1i + 1 && fresh(tris)
+//@     invariant [C02] band_indices: forall k int :: 0 <= k && k < len(tris) ==> 0 <= tris[k] && tris[k] <= v1i
+//@   loop 5:
+//@     invariant [C02] band: 0 <= i && i <= columns && j < rows - 2 && j0 == j * columns + 1 && j1 == (j + 1) * columns + 1 && len(tris) == 6 * columns + 6 * j * columns + 6 * i && v1i == 1 + (rows - 1) * columns && len(positions) == v1i + 1 && fresh(tris)
+//@     invariant [C02] band_indices: forall k int :: 0 <= k && k < len(tris) ==> 0 <= tris[k] && tris[k] <= v1i
 // Quad.ToMesh: four vertices (positions, normals), two triangles over them. The texture-coordinate array (four entries when
 // UVs are given) is not covered: the StripUVs corner methods have no contract, and after those calls nothing is known about the map.
 //@ func Quad.ToMesh
